@@ -10,8 +10,8 @@ P10 == [p \in {".", "d", "d/f", "f", "l", "s", "x", "x/f", "y"} |-> IF p = "d/f"
 U09 == <<"+p", ".", "a", "ab", "b", "c", "d", "d-", "d/a", "d/b", "e", "e/a">>
 P09 == [p \in {"+p", ".", "a", "ab", "b", "c", "d", "d-", "d/a", "d/b", "e", "e/a"} |->
           IF p \in {"d/a", "d/b"} THEN "d" ELSE IF p = "e/a" THEN "e" ELSE "."]
-U09q == <<"+p", ".", "a", "ab", "d", "d-", "d/a", "e">>
-P09q == [p \in {"+p", ".", "a", "ab", "d", "d-", "d/a", "e"} |-> IF p = "d/a" THEN "d" ELSE "."]
+U09q == <<"+p", ".", "a", "ab", "d", "d-", "d/a">>
+P09q == [p \in {"+p", ".", "a", "ab", "d", "d-", "d/a"} |-> IF p = "d/a" THEN "d" ELSE "."]
 U11 == <<".", "d", "d/f", "dev", "e", "f", "g", "k", "l", "ro", "ro/f">>
 P11 == [p \in {".", "d", "d/f", "dev", "e", "f", "g", "k", "l", "ro", "ro/f"} |-> IF p = "d/f" THEN "d" ELSE IF p = "ro/f" THEN "ro" ELSE "."]
 
